@@ -19,7 +19,12 @@ if not os.path.exists(stamp) or open(stamp).read() != head:
     assert r.returncode == 0, r.stdout[-2000:] + r.stderr[-2000:]
     open(stamp, "w").write(head)
 inc = f"-I{W}/include -I{W}/src -I{W}/include/teakra/impl"
-demo = os.path.join(src, "demo.cpp")
+demo_src = os.path.join(src, "demo.cpp")
+# some demos include project headers relative to their own location (../../src/...): compile a copy placed the same way
+# inside the confirmation worktree, so that it sees this tree's headers
+os.makedirs(os.path.join(W, "out", "x"), exist_ok=True)
+demo = os.path.join(W, "out", "x", "demo.cpp")
+shutil.copy(demo_src, demo)
 res = {}
 r = sh(f"g++ -std=c++17 -O1 {inc} {demo} {BASE_B}/src/libteakra.a -lpthread -o {W}_demo_base && {W}_demo_base")
 res["demo_unchanged_rc"] = r.returncode
@@ -50,7 +55,7 @@ if ok:
     d = os.path.join("/verif/seeded", sid)
     os.makedirs(d, exist_ok=True)
     shutil.copy(os.path.join(src, "patch.diff"), d)
-    shutil.copy(demo, d)
+    shutil.copy(demo_src, d)
     meta = json.load(open(os.path.join(src, "meta.json")))
     meta["confirmed_by_us"] = {k: res[k] for k in ("demo_unchanged_rc", "builds", "unit_tests_rc", "unit_tests_tail", "demo_changed_rc", "demo_changed_out")}
     meta["base_commit"] = head
